@@ -131,6 +131,9 @@ func c11Build(in c11Input) (*Store, *c11File, c11Model, error) {
 			pri := int32((k*7919+gen*104729+c*13)%1000 + 1)
 			m[name][key] = fmt.Sprintf("%s|%d", val, pri)
 			it := &Item{Key: []byte(key), Val: append([]byte{}, val...), Priority: pri}
+			if !in.Recycle {
+				return col.SetItem(it)
+			}
 			pool.cnt[it] = 1 // the application's own reference, for the duration of the call
 			err := col.SetItem(it)
 			pool.drop(it)
